@@ -11,6 +11,7 @@ import (
 
 	"github.com/aptpod/iscp-go/log"
 	"github.com/aptpod/iscp-go/message"
+	"github.com/aptpod/iscp-go/verifhook"
 	"github.com/aptpod/iscp-go/wire"
 	uuid "github.com/google/uuid"
 	"golang.org/x/sync/errgroup"
@@ -234,6 +235,7 @@ func (d *Downstream) run() error {
 	})
 
 	eg.Go(func() error {
+		verifhook.Point("downstream.watch.start", d.ID.String())
 		d.connStatus.cond.L.Lock()
 		for !d.connStatus.IsWithoutLock(connStatusReconnecting) {
 			select {
